@@ -494,3 +494,10 @@ package core
 //@   unclaimed #requires@findPaste children of a macro body are not known to be well-formed here
 //@   unclaimed #nil-deref children of a macro body are not known to be non-nil here
 //@   loop 1 invariant 0 - 1 <= rangeindex && rangeindex <= rangelen - 1 && d.type_ != 22
+
+// The table prefix -> declared property is insert-only: a prefix that is already bound is never bound again (C13
+// "a parameter declared twice for one prefix is rejected": the store is reached only when the prefix is new).
+//@ func (*JApiCore).BuildResourceMethodsPathVariables
+//@   tag C13
+//@   insertonly [C13] allProjectProperties
+//@   unclaimed kind!=insert-only only the insert-only discipline of the table is claimed here; the loops over the raw Path declarations and the schema maps are not under a functional contract
